@@ -1,13 +1,25 @@
 """C08 - reactive flux obeys its definition and is conserved."""
-from pyvc.runner import Run, resolve_failures
+from pyvc.runner import Run, Unit, resolve_failures
+from contracts import tpt as CT
+
+TF = 'enspara/tpt/tpt.py'
+MUT = [('inplace-populations', TF, "    fluxes[(np.arange(n_states), np.arange(n_states))] = np.zeros(n_states)", "    populations *= reverse_committors\n    fluxes[(np.arange(n_states), np.arange(n_states))] = np.zeros(n_states)"),
+       ('diagonal-kept', TF, "    fluxes[(np.arange(n_states), np.arange(n_states))] = np.zeros(n_states)\n", ""),
+       ('net-sign', TF, "    net_fluxes = fluxes - fluxes.T", "    net_fluxes = fluxes.T - fluxes"),
+       ('rev-not-complement', TF, "    reverse_committors = 1 - forward_committors", "    reverse_committors = forward_committors")]
 
 
 def run(tier, seed, update_lock=False):
     R = Run('C08', 'other', tier, seed)
+    reg = CT.registry()
+    u = Unit('tpt-flux[dense]', reg, keys=[CT.F + '_get_data_from_tprob', CT.F + 'reactive_fluxes', CT.F + 'net_fluxes'], mutants=MUT)
+    R.prove(u)
+    R.canary_check(u)
     R.lemma('Flux.lean', 'flux definition + detailed balance + row-stochastic + committor equation => net flux into = out of every intermediate state')
     R.bounded('tpt.py', 'run-time contracts (the statement) on the real reactive_fluxes / net_fluxes / reactive_populations', 'irreducible stochastic matrices 3..5 states, all disjoint source/sink sets of sizes 1-2, ndarray/csr/lil, populations given or computed', args=['--only=C08'])
     R.report_known('tpt.py')
     resolve_failures(R, 'tpt.py', lambda f: None)
     R.clauses = [{'clause': 'conservation at intermediates follows from the flux definition, detailed balance and the committor equation', 'status': 'lemma (Lean 4 + Mathlib)'},
-                 {'clause': 'flux formula, zero diagonal, net flux = positive part, reactive populations formula, source/sink flow balance, dense = sparse', 'status': 'bounded in this run (SMT obligations planned)'}]
-    return R.finish('Lean lemma for conservation + bounded run-time contracts of the statement.', update_lock=update_lock)
+                 {'clause': 'dense branch: flux = pi_i (1-q_i) T_ij q_j off the diagonal and 0 on it; nothing out of sinks / into sources; net flux = positive part of f - f^T; at most one direction per pair; inputs unchanged', 'status': 'proved (SMT on the real reactive_fluxes / net_fluxes / _get_data_from_tprob, non-linear real arithmetic; committors by its call-site contract)'},
+                 {'clause': 'reactive populations formula, source/sink flow balance, dense = sparse', 'status': 'bounded'}]
+    return R.finish('SMT obligations for the dense flux formulae + Lean lemma for conservation + bounded run-time contracts of the whole statement (incl. sparse containers).', update_lock=update_lock)
